@@ -338,6 +338,7 @@ func runC08(c *Ctx) {
 	}
 	c.R.Assume("the caller's buffer is mapped PROT_READ between guard pages: a write into it faults; GC is an explicit event and the process runs with GODEBUG=clobberfree=1")
 	c.R.Assume("SetCopyOnWrite on a zero-copy bitmap is documented as unsafe and is outside the alphabet")
+	scs = append(scs, c08Scenario64(c))
 	runScenarios(c, scs...)
 	runtime.KeepAlive(scs)
 }
